@@ -1,2 +1,186 @@
-// placeholder
+// Contract harnesses for src/cleaners/mod.rs (C10).  The slot map code (external crate `slotmap`) is
+// executed by CBMC as it is; it is exercised, not specified.  Scenarios are concrete scripts over one
+// Cleaner with <= 2 actions (bounded), each action counting its runs in ghost state.
 use super::*;
+use crate::cc::verif_proofs as ccp;
+use crate::state::state;
+use crate::state::verif_proofs as sp;
+use crate::verif::probes::*;
+
+pub(crate) static mut RUNS: [u8; 4] = [0; 4];
+pub(crate) static mut UPGRADE_OK_IN_ACTION: u8 = 0;
+fn runs() -> [u8; 4] {
+    unsafe { RUNS }
+}
+/// A-UNION (see cc_proofs::md::normalise_record_ptr): same bytes, widest union member, for the map's box
+fn normalise(c: &Cleaner, a: &Cleanable) {
+    unsafe {
+        if let Some(cc) = (*c.cleaner_map.get()).as_ref() {
+            if let Some(m) = crate::weak::verif_proofs::weak_parts(&a.cleaner_map).0 {
+                ccp::md::normalise_record_ptr(cc.inner_ptr(), m);
+            }
+        }
+    }
+}
+fn setup() {
+    #[cfg(feature = "auto-collect")]
+    let _ = crate::config::config(|c| c.set_auto_collect(false));
+}
+
+/// CleaningAction::drop runs the closure iff it is still present, and empties the slot first.
+//@ C10 | complete | deciding | feat=full | fn=CleaningAction::drop | timeout=600
+#[kani::proof]
+#[kani::unwind(9)]
+pub(crate) fn cleaning_action_drop_runs_once() {
+    let a = CleaningAction(Some(Box::new(|| unsafe { RUNS[0] += 1 })));
+    drop(a);
+    kani::assert(runs()[0] == 1, "CleaningAction::drop::post::runs_the_action_exactly_once");
+    let mut b = CleaningAction(Some(Box::new(|| unsafe { RUNS[1] += 1 })));
+    let f = b.0.take();
+    drop(b); // already taken: nothing runs
+    kani::assert(runs()[1] == 0, "CleaningAction::drop::post::noop_when_already_taken");
+    if let Some(f) = f {
+        f();
+    }
+    kani::assert(runs()[1] == 1, "CleaningAction::drop::post::runs_the_action_exactly_once");
+}
+
+/// register + drop of the Cleaner: every action not run earlier has run exactly once when the drop returns.
+//@ C10 | bounded: one Cleaner, 2 actions, script register/register/drop | deciding | feat=full | fn=Cleaner::register,Cleaner::new,CleaningAction::drop | timeout=900
+#[kani::proof]
+#[kani::unwind(9)]
+pub(crate) fn cleaner_drop_runs_every_pending_action_once() {
+    setup();
+    let c = Cleaner::new();
+    let a0 = c.register(|| unsafe { RUNS[0] += 1 });
+    let a1 = c.register(|| unsafe { RUNS[1] += 1 });
+    kani::assert(runs()[0] == 0 && runs()[1] == 0, "Cleaner::register::post::does_not_run_the_action");
+    drop(c);
+    kani::assert(runs()[0] == 1 && runs()[1] == 1, "Cleaner::drop::post::every_pending_action_ran_exactly_once");
+    // clean() afterwards is a no-op
+    a0.clean();
+    a1.clean();
+    kani::assert(runs()[0] == 1 && runs()[1] == 1, "Cleanable::clean::post::noop_after_the_cleaner_is_gone");
+    drop(a0);
+    drop(a1);
+    kani::assert(state(|s| sp::snap(s)).bytes == 0, "Cleaner::drop::post::map_released");
+}
+
+/// clean() runs its action once, immediately; a second clean() and the Cleaner's drop do not run it again;
+/// dropping a Cleanable neither runs nor cancels its action.
+//@ C10 | bounded: one Cleaner, 2 actions, script clean/clean/drop-cleanable/drop-cleaner | deciding | feat=full | fn=Cleanable::clean,Cleaner::register | timeout=900
+#[kani::proof]
+#[kani::unwind(9)]
+pub(crate) fn cleanable_clean_runs_once_and_drop_of_cleanable_is_inert() {
+    setup();
+    let c = Cleaner::new();
+    let a0 = c.register(|| unsafe { RUNS[0] += 1 });
+    normalise(&c, &a0);
+    let a1 = c.register(|| unsafe { RUNS[1] += 1 });
+    a0.clean();
+    kani::assert(runs()[0] == 1 && runs()[1] == 0, "Cleanable::clean::post::runs_exactly_its_action_once");
+    a0.clean();
+    kani::assert(runs()[0] == 1 && runs()[1] == 0, "Cleanable::clean::post::second_clean_is_a_noop");
+    drop(a1);
+    kani::assert(runs()[1] == 0, "Cleanable::drop::post::neither_runs_nor_cancels");
+    drop(c);
+    kani::assert(runs()[0] == 1 && runs()[1] == 1, "Cleaner::drop::post::every_pending_action_ran_exactly_once");
+    drop(a0);
+}
+
+/// The Cleaner is owned by an object that is released by reference counting / reclaimed as part of a cycle.
+pub(crate) struct Owner {
+    pub me: core::cell::RefCell<Option<Cc<Owner>>>,
+    pub cleaner: Cleaner,
+}
+unsafe impl Trace for Owner {
+    fn trace(&self, ctx: &mut Context<'_>) {
+        self.me.trace(ctx);
+        self.cleaner.trace(ctx);
+    }
+}
+impl Finalize for Owner {}
+
+//@ C10 C08 | bounded: one owner, 1-2 actions, released by count and by cycle collection | deciding | feat=full | fn=Cleaner::register,Cleanable::clean,collect_cycles | timeout=1200
+#[kani::proof]
+#[kani::unwind(12)]
+pub(crate) fn cleaner_owner_released_by_count_and_by_cycle() {
+    setup();
+    // by reference counting
+    let o = Cc::new(Owner { me: core::cell::RefCell::new(None), cleaner: Cleaner::new() });
+    let w = o.downgrade();
+    let wa = w.clone();
+    let a0 = o.cleaner.register(move || unsafe {
+        RUNS[0] += 1;
+        // C08/C10: an action can never reach the object being cleaned
+        if wa.upgrade().is_some() {
+            UPGRADE_OK_IN_ACTION += 1;
+        }
+    });
+    normalise(&o.cleaner, &a0);
+    ccp::md::normalise_record_ptr(o.inner_ptr(), crate::weak::verif_proofs::weak_parts(&w).0.unwrap());
+    drop(o);
+    kani::assert(runs()[0] == 1, "Cleaner::drop::post::action_ran_once_when_owner_released_by_count");
+    kani::assert(unsafe { UPGRADE_OK_IN_ACTION } == 0, "CleaningAction::post::never_reaches_the_cleaned_object");
+    a0.clean();
+    kani::assert(runs()[0] == 1, "Cleanable::clean::post::noop_after_the_cleaner_is_gone");
+    drop(a0);
+    drop(w);
+    // as part of a collected cycle
+    let p = Cc::new(Owner { me: core::cell::RefCell::new(None), cleaner: Cleaner::new() });
+    match p.me.try_borrow_mut() {
+        Ok(mut b) => *b = Some(p.clone()),
+        Err(_) => kani::assume(false),
+    }
+    let wp = p.downgrade();
+    ccp::md::normalise_record_ptr(p.inner_ptr(), crate::weak::verif_proofs::weak_parts(&wp).0.unwrap());
+    let a1 = p.cleaner.register(move || unsafe {
+        RUNS[1] += 1;
+        if wp.upgrade().is_some() {
+            UPGRADE_OK_IN_ACTION += 1;
+        }
+    });
+    normalise(&p.cleaner, &a1);
+    drop(p);
+    kani::assert(runs()[1] == 0, "Cleaner::register::post::does_not_run_the_action");
+    crate::collect_cycles();
+    crate::collect_cycles();
+    kani::assert(runs()[1] == 1, "Cleaner::drop::post::action_ran_once_when_owner_reclaimed_as_cycle");
+    kani::assert(unsafe { UPGRADE_OK_IN_ACTION } == 0, "CleaningAction::post::never_reaches_the_cleaned_object");
+    a1.clean();
+    kani::assert(runs()[1] == 1, "Cleanable::clean::post::noop_after_the_cleaner_is_gone");
+    drop(a1);
+    kani::assert(state(|s| sp::snap(s)).bytes == 0, "Cleaner::drop::post::map_released");
+}
+
+pub(crate) static mut HOLDER: Option<Cc<Owner>> = None;
+
+/// Re-entrancy: the action run by clean() releases the owner (and with it the Cleaner) while clean()
+/// is still on the stack.  By the time clean() returns the Cleaner is gone, so every other pending
+/// action must have run exactly once, and nothing runs twice.
+//@ C10 | bounded: one owner, 2 actions, the first action drops the last Cc to the owner from inside clean() | deciding | feat=full | fn=Cleanable::clean,Cleaner::register,Weak::upgrade,Cc::drop | timeout=1200
+#[kani::proof]
+#[kani::unwind(12)]
+#[allow(static_mut_refs)]
+pub(crate) fn cleaner_dropped_from_inside_clean() {
+    setup();
+    let o = Cc::new(Owner { me: core::cell::RefCell::new(None), cleaner: Cleaner::new() });
+    let a0 = o.cleaner.register(|| unsafe {
+        RUNS[0] += 1;
+        let h = HOLDER.take();
+        drop(h); // last Cc to the owner: the owner and its Cleaner go away now
+    });
+    normalise(&o.cleaner, &a0);
+    let a1 = o.cleaner.register(|| unsafe { RUNS[1] += 1 });
+    unsafe { HOLDER = Some(o) };
+    a0.clean();
+    kani::assert(runs()[0] == 1, "Cleanable::clean::post::runs_exactly_its_action_once");
+    kani::assert(unsafe { HOLDER.is_none() }, "Cleanable::clean::post::runs_exactly_its_action_once");
+    kani::assert(runs()[1] == 1, "Cleaner::drop::post::every_pending_action_ran_exactly_once");
+    a1.clean();
+    a0.clean();
+    kani::assert(runs()[0] == 1 && runs()[1] == 1, "Cleanable::clean::post::noop_after_the_cleaner_is_gone");
+    drop(a0);
+    drop(a1);
+    kani::assert(state(|s| sp::snap(s)).bytes == 0, "Cleaner::drop::post::map_released");
+}
